@@ -8,8 +8,8 @@ COQ_EXTRACT = "Extract_C01.v"
 LEVEL = "proof"
 RULE = ("cases = pairs (A,B) of explicit tree automata over {a/0,b/0,g/1,f/2}(+h/3): corpus; complete slice (all A with <=2 states and <=2 rules "
         "x all B with 1 state and <=2 rules, every final set); targeted families (leaf symbol of A missing in B, quotient pairs B->image(B), "
-        "near-miss pairs, non-singleton macro-states, useless states, overlapping numbers); random pairs up to 4+4 states. Each case runs all 8 "
-        "selections. Non-trivial = both languages non-empty; distinct by rule/final sets of the pair")
+        "near-miss pairs, non-singleton macro-states, useless states, overlapping numbers, split pairs, operands that are two copies of one automaton (shared transition table) with different final states); random pairs up to 4+4 states. Each case runs all 8 "
+        "selections following the CLI protocol and the 4 selections without simulation also directly on the caller's operands. Non-trivial = both languages non-empty; distinct by rule/final sets of the pair")
 EXHAUSTIVE_SLICES = "all A with <=2 states, <=2 rules x all B with 1 state, <=2 rules over {a/0,b/0,g/1,f/2}, every final set (the run as a whole is not exhaustive)"
 TRUSTED_BASE = [
     "Coq 8.16.1 kernel (coqc, full .vo build); vm_compute only in *_refuted witnesses and Examples; no native_compute",
@@ -60,6 +60,27 @@ def split_family(rng, n):
         out.append((a, b) if rng.random() < 0.85 else (b, a))
     return out
 
+def shared_family(rng, n):
+    """both operands over ONE rule list (the driver builds them as two copies of one automaton: shared copy-on-write table) with their own final
+    states; bases with duplicated states (split copies) so that inclusion holds between incomparable final sets, and states with empty language"""
+    out = []
+    for _ in range(n):
+        k = rng.random()
+        if k < 0.5: _, base = gen.split_pair(rng, maxs=3, maxr=7)
+        elif k < 0.8: base = gen.rand_ta_sized(rng, 4, 8)
+        else:
+            base = gen.rand_ta_sized(rng, 3, 6)
+            base.rules.append((2, 7, (8,)))              # state 7 has a rule over a state without rules: empty language
+        st = sorted(base.states()) or [0]
+        fa = [q for q in st if rng.random() < 0.35] or [rng.choice(st)]
+        m = rng.random()
+        if m < 0.3: fb = [q for q in st if rng.random() < 0.35]
+        elif m < 0.6: fb = [q ^ 1 if (q ^ 1) in st else q for q in fa]           # the sibling copies
+        elif m < 0.8: fb = [q for q in fa if rng.random() < 0.7] + [q for q in st if rng.random() < 0.2]
+        else: fb = list(st)
+        out.append((gen.TA(fa, base.rules), gen.TA(fb, base.rules)))
+    return out
+
 def cases(rng, tier):
     cs = [(l, "corpus") for l in CORPUS]
     bs = list(gen.enum_ta(1, 2))
@@ -70,6 +91,7 @@ def cases(rng, tier):
         cs = cs[:len(CORPUS)] + rng.sample(cs[len(CORPUS):], 4000) if False else cs
     for (a, b) in targeted(rng): cs.append(("incl %s %s" % (a.fmt(), b.fmt()), "targeted"))
     for (a, b) in split_family(rng, 5000 if tier == "quick" else 40000): cs.append(("incl %s %s" % (a.fmt(), b.fmt()), "targeted_split"))
+    for (a, b) in shared_family(rng, 1500 if tier == "quick" else 15000): cs.append(("incl %s %s" % (a.fmt(), b.fmt()), "shared_table"))
     n = 2000 if tier == "quick" else 40000
     for _ in range(n):
         sg = rng.choice([gen.SIGMA, gen.SIGMA, gen.SIGMA3])
@@ -79,7 +101,7 @@ def cases(rng, tier):
 
 def nontrivial(c, impl, verd): return " Anonempty" in verd and " Bnonempty" in verd
 def observe(dist, c, impl, verd):
-    for k in ("included", "notincluded", "Aempty", "Bempty", "timeout", "down_model_out_of_fuel", "down_model_run"):
+    for k in ("included", "notincluded", "Aempty", "Bempty", "timeout", "shared_table", "down_model_out_of_fuel", "down_model_run"):
         if (" " + k) in verd: dist[k] = dist.get(k, 0) + 1
 def shrink_candidates(c): return gen.shrink_automata(c)
 def explain(c, impl, verd):
